@@ -67,6 +67,8 @@ def canon(op):
         return f"exit({op.arg})"
     if k == "sleep":
         return "sleep"
+    if k == "fut":
+        return f"fut({op.arg})"
     if k == "start":
         return "start"
     if k == "api":
@@ -164,7 +166,7 @@ class Engine:
         k = op.kind
         vs = []
         if k in ("start", "release", "send", "sleep", "task", "taskend", "init", "exit", "tstart", "pstart", "kill",
-                 "alive", "api"):
+                 "alive", "api", "fut"):
             vs = ["ok"]
         elif k == "acquire":
             if op.obj.value > 0 or op.obj.owned_by(a):
